@@ -133,13 +133,16 @@ std::vector<Eigen::Affine3d> transforms() {
   std::vector<Eigen::Affine3d> v;
   std::vector<M3> Rs = {M3::Identity(), Eigen::AngleAxisd(0.4, V3::UnitZ()).toRotationMatrix(), Eigen::AngleAxisd(-2.0, V3::UnitZ()).toRotationMatrix(), Eigen::AngleAxisd(0.5, V3::UnitX()).toRotationMatrix(),
                         Eigen::AngleAxisd(-0.6, V3::UnitY()).toRotationMatrix(), Eigen::AngleAxisd(-1.1, V3(1, 1, 0).normalized()).toRotationMatrix(), Eigen::AngleAxisd(2.7, V3(-2, 1, 3).normalized()).toRotationMatrix()};
+  // the 24 rotations of the cube (signed permutation matrices: sensor mounting transforms; several have a roll-pitch-yaw pitch of exactly +-pi/2)
+  { int perm[6][3] = {{0, 1, 2}, {0, 2, 1}, {1, 0, 2}, {1, 2, 0}, {2, 0, 1}, {2, 1, 0}};
+    for (auto& pm : perm) for (int sg = 0; sg < 8; ++sg) { M3 M = M3::Zero(); for (int i = 0; i < 3; ++i) M(i, pm[i]) = (sg >> i) & 1 ? -1.0 : 1.0; if (M.determinant() > 0) Rs.push_back(M); } }
   // nearly planar / nearly identity transforms: a yaw composed with a tilt of 1e-9 ... 1e-2 rad, and tiny rotations about a generic axis
   for (double tilt : {1e-9, 1e-6, 3e-4, 8e-4, 1e-2}) Rs.push_back((Eigen::AngleAxisd(0.4, V3::UnitZ()) * Eigen::AngleAxisd(tilt, V3(1, 0.5, 0).normalized())).toRotationMatrix());
   for (double ang : {1e-7, 2e-4}) Rs.push_back(Eigen::AngleAxisd(ang, V3(-2, 1, 3).normalized()).toRotationMatrix());
   for (auto& R : Rs) for (auto t : {V3(0, 0, 0), V3(0.3, -1.2, 2)}) { Eigen::Affine3d T = Eigen::Affine3d::Identity(); T.linear() = R; T.translation() = t; v.push_back(T); }
   return v;
 }
-std::vector<V3> attitudes() { std::vector<V3> v; std::vector<double> rs = {0.0, 0.7, -2.5}, ps = {0.0, 0.3, -1.2, 1.4}, ys = {0.0, 0.4, -3.0}; if (g_th) { rs.push_back(3.0); rs.push_back(-0.4); ps.push_back(-0.6); ps.push_back(1.0); ps.push_back(-1.45); ys.push_back(2.2); ys.push_back(5.5); } for (double r : rs) for (double p : ps) for (double y : ys) v.push_back({r, p, y}); return v; }
+std::vector<V3> attitudes() { std::vector<V3> v; std::vector<double> rs = {0.0, 0.7, -2.5}, ps = {0.0, 0.3, -1.2, 1.4, 2.5, -2.0}, ys = {0.0, 0.4, -3.0};   /* 2.5, -2.0: cos(pitch) < 0, still far from gimbal lock */ if (g_th) { rs.push_back(3.0); rs.push_back(-0.4); ps.push_back(-0.6); ps.push_back(1.0); ps.push_back(-1.45); ys.push_back(2.2); ys.push_back(5.5); } for (double r : rs) for (double p : ps) for (double y : ys) v.push_back({r, p, y}); return v; }
 
 Eigen::Matrix<double, 6, 1> out6(const Pose3D& p) { Eigen::Matrix<double, 6, 1> o; o << p.position, p.orientation; return o; }
 
@@ -151,7 +154,7 @@ void pose_cov(vf::Ctx& c, size_t it) {
     Pose3D p; p.position = poss[ip]; p.orientation = atts[ia]; p.covariance.setZero();
     Pose3D r0 = T * p;
     double pit = betweenMinusPiAndPi(r0.orientation[1]);
-    if (std::fabs(pit) > M_PI / 2 - 0.05) { c.trivial(); continue; }
+    if (std::fabs(pit) > M_PI / 2 - 0.05 || std::fabs(std::cos(atts[ia][1])) < 0.05) { c.trivial(); continue; }   // gimbal lock before or after the transformation
     // Jacobian of the library's own map by Richardson-extrapolated central differences
     M6 J;
     for (int k = 0; k < 6; ++k) {
@@ -242,7 +245,7 @@ std::string vf_describe(const std::string& tier) {
   o.vec("roll_yaw", rollyaw()).vec("pitch", pitches());
   o.str("finite_differences", "central differences with Richardson extrapolation (h=1e-4, 5e-5) of the library's own R() and operator*(Affine3d,Pose3D); tolerance 1e-9 absolute (rotation derivatives), 1e-8 relative (covariances)");
   o.str("derivative_sequences", std::string("one SmartRotation3D (default-constructed / constructed from a vector / from three scalars) through every sequence of ") + (g_th ? "7" : "4") + " operations out of 15 (init with 6 angle triples in both overloads, read of all derivative matrices, assignment to another long-lived object, moved-in copy) followed by a read; every read bit-equal to a fresh object at the current angles");
-  o.str("transform_catalogue", "identity, yaw, roll, pitch, two generic axes, a yaw composed with a tilt of {1e-9,1e-6,3e-4,8e-4,1e-2} rad, rotations of 1e-7 and 2e-4 rad about a generic axis; each with and without translation");
+  o.str("transform_catalogue", "identity, yaw, roll, pitch, two generic axes, the 24 rotations of the cube, a yaw composed with a tilt of {1e-9,1e-6,3e-4,8e-4,1e-2} rad, rotations of 1e-7 and 2e-4 rad about a generic axis; each with and without translation");
   o.u("transforms", transforms().size()).u("attitudes", attitudes().size()).u("covariances", cov_catalogue().size());
   o.str("least_squares", "estimate size 1..6, data size {p,p+3,40}, Cholesky and SVD, preconditioner {none, diag(0.5+j)+offset, diag(1e3/1e-3)+offset}, second problem on a reused solver; design matrix magnitude {1, 2^-17, 2^10} (float {1, 2^-6, 2^6}); float and double; tolerance 16 eps kappa(J)^2");
   return o.done();
